@@ -672,7 +672,10 @@ func plaintext(r *hx.Rand, g *hx.Gen) []byte {
 	var sb bytes.Buffer
 	n := r.Range(0, 30)
 	if r.Chance(1, 20) {
-		n = r.Range(200, 800)
+		n = r.Range(100, 300)
+		if g.Thorough() {
+			n = r.Range(200, 800)
+		}
 		g.Stat("pt.long")
 	}
 	for i := 0; i < n; i++ {
@@ -771,7 +774,7 @@ func genClrDec(g *hx.Gen) {
 }
 
 func gen(g *hx.Gen) {
-	n := g.Count(3600, 150000)
+	n := g.Count(3000, 150000)
 	r := g.R
 	for i := 0; i < n; i++ {
 		switch k := r.Intn(20); {
